@@ -52,12 +52,14 @@ pub fn c19_cost_seq3_zero() {
 }
 
 // @h prop=C19 tier=thorough kind=proof engine=both inst="IndexOptimized<Vec<u32>,Vec<u64>>" bounds="pushes w, x, y with w != 0" desc="everything spills: 4 bytes per entry until the first value > u32::MAX, 8 from there on"
+#[cfg(feature = "thorough")]
 #[cfg_attr(kani, kani::proof, kani::unwind(6))]
 pub fn c19_cost_seq3_nonzero() {
     cost_seq::<3>(Some(false));
 }
 
 // @h prop=C19 tier=thorough kind=proof engine=both timeout=3000 inst="IndexOptimized<Vec<u32>,Vec<u64>>" bounds="pushes 0, x, y, z" desc="as c19_cost_seq3_zero, four values"
+#[cfg(feature = "thorough")]
 #[cfg_attr(kani, kani::proof, kani::unwind(7))]
 pub fn c19_cost_seq4_zero() {
     cost_seq::<4>(Some(true));
